@@ -12,6 +12,8 @@ import (
 	"os"
 	"reflect"
 	"strings"
+	"sync"
+	"time"
 
 	"github.com/traefik/yaegi/interp"
 	"github.com/traefik/yaegi/stdlib"
@@ -465,6 +467,10 @@ type special struct {
 
 var hostVar = 5
 
+var sumFn func(int) int
+
+var again func(int) int
+
 func specials() []special {
 	logf := func(log *[]string) reflect.Value {
 		return reflect.ValueOf(func(a ...interface{}) { *log = append(*log, strings.TrimSpace(fmt.Sprintln(a...))) })
@@ -564,6 +570,60 @@ func specials() []special {
 				*log = append(*log, fmt.Sprint(r, g.Interface(), hostVar))
 				return nil
 			}, want: []string{"6", "host sees 6", "2 2 60"}},
+		{name: "exported script function re-entered through a host callback (nested activations of one wrapper)", src: "package main\n\nimport \"h\"\n\nfunc Sum(n int) int {\n\tlocal := n * 100\n\tif n == 0 {\n\t\treturn 0\n\t}\n\tr := n + h.Again(n-1)\n\th.Log(\"frame\", n, local)\n\treturn r\n}\n",
+			exports: func(log *[]string) map[string]reflect.Value {
+				again = func(k int) int { return sumFn(k) }
+				return map[string]reflect.Value{"Log": logf(log), "Again": reflect.ValueOf(func(k int) int { return again(k) })}
+			},
+			after: func(i *interp.Interpreter, log *[]string) error {
+				fv, err := i.Eval("Sum")
+				if err != nil {
+					return err
+				}
+				sumFn = fv.Interface().(func(int) int)
+				*log = append(*log, fmt.Sprint(sumFn(4)))
+				return nil
+			}, want: []string{"frame 1 100", "frame 2 200", "frame 3 300", "frame 4 400", "10"}},
+		{name: "script callback stored by the host and re-entered from a host function it calls", src: "package main\n\nimport \"h\"\n\nfunc Visit(s string) string {\n\tmine := s\n\tif len(s) < 3 {\n\t\th.Fire(s + \"x\")\n\t}\n\treturn mine\n}\n\nfunc Main() {\n\th.Register(Visit)\n\th.Fire(\"a\")\n}\n",
+			exports: func(log *[]string) map[string]reflect.Value {
+				var cb func(string) string
+				return map[string]reflect.Value{"Log": logf(log), "Register": reflect.ValueOf(func(f func(string) string) { cb = f }),
+					"Fire": reflect.ValueOf(func(s string) { r := cb(s); *log = append(*log, r) })}
+			}, want: []string{"axx", "ax", "a"}},
+		{name: "two host goroutines inside the same exported function at the same time", src: "package main\n\nimport \"h\"\n\nfunc Slow(id int) int {\n\tmine := id * 7\n\th.Barrier()\n\treturn mine + id\n}\n",
+			exports: func(log *[]string) map[string]reflect.Value {
+				var mu sync.Mutex
+				n := 0
+				both := make(chan struct{})
+				return map[string]reflect.Value{"Log": logf(log), "Barrier": reflect.ValueOf(func() {
+					mu.Lock()
+					n++
+					if n == 2 {
+						close(both)
+					}
+					mu.Unlock()
+					select {
+					case <-both:
+					case <-time.After(5 * time.Second):
+					}
+				})}
+			},
+			after: func(i *interp.Interpreter, log *[]string) error {
+				fv, err := i.Eval("Slow")
+				if err != nil {
+					return err
+				}
+				f := fv.Interface().(func(int) int)
+				res := make([]int, 2)
+				var wg sync.WaitGroup
+				for k := 0; k < 2; k++ {
+					wg.Add(1)
+					go func(k int) { defer wg.Done(); res[k] = f(k + 1) }(k)
+				}
+				wg.Wait()
+				*log = append(*log, fmt.Sprint(res))
+				return nil
+			}, want: []string{"[8 16]"}},
 		{name: "multiple and error results from host and script", src: "package main\n\nimport \"h\"\n\nfunc Div(a, b int) (int, error) {\n\tif b == 0 {\n\t\treturn 0, h.ErrX\n\t}\n\treturn a / b, nil\n}\n\nfunc Main() {\n\tq, err := h.HDiv(7, 2)\n\th.Log(q, err == nil)\n\tq, err = h.HDiv(1, 0)\n\th.Log(q, err == h.ErrX)\n}\n",
 			exports: func(log *[]string) map[string]reflect.Value {
 				return map[string]reflect.Value{"Log": logf(log), "HDiv": reflect.ValueOf(func(a, b int) (int, error) {
@@ -746,7 +806,7 @@ func main() {
 	r.Set("distinct_nontrivial", len(res.Sets["shapes"]))
 	r.Set("type_alphabet", len(T))
 	r.Set("exhaustive", len(res.Abnormal) == 0)
-	r.Set("rule", "all signatures with <= 2 parameters over a 20-type alphabet (8 basic kinds, host structs incl. embedded/pointer/slice fields, pointer, array, slices, map, error, interface{}, two function types) x {0, 1 result; 2 results on the (T,error)/(T,T) diagonals - thorough: all pairs} x 3 value patterns (zero values, non-zero, alternating); variadic variants; arity 3-4 / 3 results over 6 class representatives; both directions with recorders on both sides; 9 special scenarios (mutation through references, callbacks crossing twice, returned closures, interpreted types as fmt.Stringer/error, shared variables); distinct_nontrivial = distinct signature shapes")
+	r.Set("rule", "all signatures with <= 2 parameters over a 20-type alphabet (8 basic kinds, host structs incl. embedded/pointer/slice fields, pointer, array, slices, map, error, interface{}, two function types) x {0, 1 result; 2 results on the (T,error)/(T,T) diagonals - thorough: all pairs} x 3 value patterns (zero values, non-zero, alternating); variadic variants; arity 3-4 / 3 results over 6 class representatives; both directions with recorders on both sides; 12 special scenarios (mutation through references, callbacks crossing twice, re-entrant and concurrent activations of one exported wrapper, returned closures, interpreted types as fmt.Stringer/error, shared variables); distinct_nontrivial = distinct signature shapes")
 	r.Assumptions = []string{"values are compared through an address-free rendering; function values by their behaviour on a fixed argument", "host functions of arbitrary signature are built with reflect.FuncOf/MakeFunc"}
 	for _, i := range []int{5, len(ks) / 2, len(ks) - 1} {
 		r.Sample(ks[i].desc())
